@@ -970,8 +970,11 @@ class SortValues(BaseSetIndexSortValues):
             self._divisions_ascending,
             upsample=self.upsample,
         )
-        if presorted:
+        if presorted and not self.ignore_index:
             return self.frame.divisions
+        if presorted:
+            # the rows stay where they are but get a fresh index
+            return (None,) * (self.frame.npartitions + 1)
         return (None,) * len(divisions)
 
     @property
@@ -1259,7 +1262,16 @@ class SortValuesBlockwise(Blockwise):
 
     @functools.cached_property
     def _meta(self):
-        return self.frame._meta
+        meta = self.frame._meta
+        if self.sort_kwargs.get("ignore_index"):
+            meta = meta.reset_index(drop=True)
+        return meta
+
+    def _divisions(self):
+        if self.sort_kwargs.get("ignore_index"):
+            # every partition gets a fresh RangeIndex
+            return (None,) * (self.frame.npartitions + 1)
+        return super()._divisions()
 
 
 class SetIndexBlockwise(Blockwise):
